@@ -491,7 +491,7 @@ func isLenLike(v ssa.Value) bool {
 			return bi.Name() == "len"
 		}
 		if f := x.Call.StaticCallee(); f != nil {
-			return f.Name() == "Len" || f.Name() == "MaxValue"
+			return NameOf(f) == "Len" || NameOf(f) == "MaxValue"
 		}
 		if x.Call.IsInvoke() {
 			return x.Call.Method.Name() == "Len"
@@ -616,7 +616,7 @@ func (ri *rawIndex) sanitised(v ssa.Value, at *ssa.BasicBlock, seen map[ssa.Valu
 	switch x := v.(type) {
 	case *ssa.Call:
 		if f := x.Call.StaticCallee(); f != nil {
-			switch f.Name() {
+			switch NameOf(f) {
 			case "Value": // cursor.Cursor.Value(): 0 <= value < maxValue by Cursor.Set
 				if f.Signature.Recv() != nil && strings.Contains(f.Signature.Recv().Type().String(), "cursor.Cursor") {
 					return true, ""
@@ -639,7 +639,7 @@ func (ri *rawIndex) sanitised(v ssa.Value, at *ssa.BasicBlock, seen map[ssa.Valu
 			// (block header, separating blank line): Line(...) +/- 1
 			if k, ok := ConstInt(x.Y); ok && k == 1 {
 				if call, ok := x.X.(*ssa.Call); ok {
-					if f := call.Call.StaticCallee(); f != nil && f.Name() == "Line" {
+					if f := call.Call.StaticCallee(); f != nil && NameOf(f) == "Line" {
 						return true, ""
 					}
 				}
@@ -692,7 +692,7 @@ func nonNegative(v ssa.Value, at *ssa.BasicBlock, seen map[ssa.Value]bool) (bool
 		}
 		name := ""
 		if f := x.Call.StaticCallee(); f != nil {
-			name = f.Name()
+			name = NameOf(f)
 		} else if x.Call.IsInvoke() {
 			name = x.Call.Method.Name()
 		}
@@ -794,7 +794,7 @@ func userArgMin(ta *ssa.TypeAssert) (int64, bool) {
 			return 0, false
 		}
 		f := call.Call.StaticCallee()
-		if f == nil || f.Name() != "ParseNum" || len(call.Call.Args) != 2 || !parseNumEnforcesMin(f) {
+		if f == nil || NameOf(f) != "ParseNum" || len(call.Call.Args) != 2 || !parseNumEnforcesMin(f) {
 			return 0, false
 		}
 		return ConstInt(call.Call.Args[0])
@@ -871,7 +871,7 @@ func taintedInt(v ssa.Value, seen map[ssa.Value]bool) bool {
 		}
 	case *ssa.Parameter:
 		fn := x.Parent()
-		if fn.Name() == "Print" && fn.Signature.Recv() != nil && len(fn.Params) == 2 && fn.Params[1] == x && isInt(x.Type()) {
+		if NameOf(fn) == "Print" && fn.Signature.Recv() != nil && len(fn.Params) == 2 && fn.Params[1] == x && isInt(x.Type()) {
 			return true
 		}
 	case *ssa.Convert:
@@ -892,7 +892,7 @@ func taintedInt(v ssa.Value, seen map[ssa.Value]bool) bool {
 			// arithmetic on a cursor position leaves the valid range
 			for _, o := range []ssa.Value{x.X, x.Y} {
 				if call, ok := o.(*ssa.Call); ok {
-					if f := call.Call.StaticCallee(); f != nil && f.Name() == "Value" && f.Signature.Recv() != nil && strings.Contains(f.Signature.Recv().Type().String(), "cursor.Cursor") {
+					if f := call.Call.StaticCallee(); f != nil && NameOf(f) == "Value" && f.Signature.Recv() != nil && strings.Contains(f.Signature.Recv().Type().String(), "cursor.Cursor") {
 						return true
 					}
 				}
@@ -950,7 +950,7 @@ func checkLineIndices(c *Ctx, rule string, scope func(*ssa.Function) bool) int {
 					continue // an internal value (loop variable, block index, ...), not controlled from outside
 				}
 				n++
-				name := Origin(f).Name()
+				name := NameOf(Origin(f))
 				ord[name]++
 				key := fmt.Sprintf("%s/%s(arg%d)#%d", ShortName(fn), name, i, ord[name])
 				ok, why := ri.sanitised(a, cs.Block(), map[ssa.Value]bool{})
@@ -1129,7 +1129,7 @@ func checkMaybeNilFields(c *Ctx, rule string, scope func(*ssa.Function) bool) in
 	}
 	var names []string
 	for f, w := range maybeNil {
-		names = append(names, f.Name()+" (may be nil since "+w+")")
+		names = append(names, NameOf(f)+" (may be nil since "+w+")")
 	}
 	sort.Strings(names)
 	c.Extra["possibly_nil_pointer_fields"] = names
@@ -1177,7 +1177,7 @@ func checkMaybeNilFields(c *Ctx, rule string, scope func(*ssa.Function) bool) in
 			if _, seen := uses[fo]; !seen {
 				fields = append(fields, fo)
 			}
-			uses[fo] = append(uses[fo], use{fn: fn, cs: CallSite{Fn: fn, Instr: cs.Instr}, name: name, m: f.Name()})
+			uses[fo] = append(uses[fo], use{fn: fn, cs: CallSite{Fn: fn, Instr: cs.Instr}, name: name, m: NameOf(f)})
 		}
 	}
 	sort.Slice(fields, func(i, j int) bool { return fields[i].Pos() < fields[j].Pos() })
